@@ -14,7 +14,7 @@ META = {
                    "1 <= W <= BITS; INV is a representable W-bit pattern (so exactly one pattern is absent); integer fields: no overflow and exact inverse; "
                    "float fields: |p| <= 2^t (exact conversion), finite results, round-half-away template, and the forward-error bound of "
                    "decode->encode is below 1/2 - u(|p|+1) for the largest pattern, hence E(D(p)) = p for every p (all 2^W patterns, including the "
-                   "34-38-bit fields). A body that does not match the templates is a violation (fail closed). The hand-written SSR lists (1059 / 1065 / 1230) are covered by their quantiser rule (Q-quant) and, for their integer fields (satellite id, signal code, counts), by C16's mask / count / flow clauses, imported: every id pattern of the field's width is accepted by the encoder and written under its own id.",
+                   "34-38-bit fields). A body that does not match the templates is a violation (fail closed). The hand-written SSR lists (1059 / 1065 / 1230) are covered by their quantiser rule (Q-quant) and, for their integer fields (satellite id, signal code, counts), by C16's mask / count / flow clauses, imported: every id pattern of the field's width is accepted by the encoder and written under its own id. Message level: the dispatch tables pair number n with the decode / encode of one macro-built codec module (C14's D-coh, imported), so no message edits a field on its way to or from the field codec.",
     "assumptions": ["the negative-zero pattern of sign-magnitude fields is the allowed exception (not a W-bit value of parse's range)"],
 }
 
@@ -30,6 +30,11 @@ def run(ctx, res):
     view = engine.Filtered(res, {"Q-mask", "Q-cnt", "Q-pred", "Q-flow", "Q-1230", "K-adeq"})
     ssr.rule_count_fields(prog, view)
     ssr.rule_value_flow(prog, view)
+    # "every numeric data field of every supported message": a message reaches its fields through its codec module - the dispatch tables must
+    # send number n to msgN::decode / msgN::encode of one module, the macro-built one (D-coh codec-module; a wrapper that edits fields on the
+    # way - clearing words under a flag of a neighbouring field - is a different function)
+    import dispatch
+    dispatch.coherence(prog, engine.Filtered(res, {"D-coh", "T-dec"}), ctx.repo, dec_keys=dispatch.ROUNDTRIP_KEYS)
     # the field models read "carrier kind + width" as unsigned / two's-complement / sign-magnitude values: that reading is decided here
     import bitio
     bitio.rule_bitsem(prog, res)
